@@ -326,12 +326,11 @@ func skipExtension(b []byte, xi *extensionFieldInfo, num protowire.Number, wtyp 
 			return out, ValidationUnknown
 		}
 
-		if opts.Validated() {
-			out.initialized = true
-			out.n = n
-			return out, ValidationValid
-		}
-
+		// The data may have been validated before (opts.Validated), but
+		// that says nothing about required fields: a partial message is
+		// deferred under AllowPartial, and occurrences skipped for a later
+		// pass were not validated at all. Validate to learn whether the
+		// value is initialized; only then may it be kept as lazy bytes.
 		out, st := xi.validation.mi.validate(v, 0, opts)
 		out.n = n
 		return out, st
